@@ -10,7 +10,7 @@ EXTENDS MC_EvalBase
 Strs2 == {<<>>, <<97>>, <<98>>, <<97,97>>, <<97,98>>, <<98,97>>, <<98,98>>,
           <<97,97,97>>, <<97,98,97>>, <<97,98,98>>, <<98,97,98>>, <<97,98,97,98>>, <<98,98,98>>,
           <<195,169>>, <<97,195,169>>, <<195,169,97>>}
-StrsCase == {<<11,97,12>>, <<13,10,97,32,9>>, <<65>>, <<97,66>>, <<32,97,32>>, <<9,97,10>>, <<32,32>>, <<97,32,98>>, <<65,98,67>>}
+StrsCase == {<<195,169>>, <<79,82,68,69,82,45,195,177>>, <<206,145,206,179>>, <<209,143,65,228,184,173>>, <<104,195,137,108,108,111>>, <<11,97,12>>, <<13,10,97,32,9>>, <<65>>, <<97,66>>, <<32,97,32>>, <<9,97,10>>, <<32,32>>, <<97,32,98>>, <<65,98,67>>}
 Ints == -2..5
 I(n) == IF n < 0 THEN <<"Pre", "-", N(-n)>> ELSE N(n)
 C(f, as) == <<"Call", Id(f), as, FALSE>>
